@@ -106,27 +106,46 @@ def run(seed=0, tier="quick", aimed=None):
             if len(samples) < 3:
                 samples.append({"oracle": "c01_reference_step", "config": label, "steps": 3})
     # passive transport
+    fi, c = passive_reference_steps(seed, "c01passive", "c01_passive_reference_step")
+    cases += c
+    if fi is not None:
+        return {"ok": False, "cases": cases, "samples": samples, "failing_input": fi}
+    return {"ok": True, "cases": cases, "failing_input": None, "samples": samples}
+
+
+def passive_reference_steps(seed, tag, oracle_name, reps=1):
+    """passive-transport simulator (2D scalar, 3D scalar, 3D vector; pairwise different grid extents; dt drawn or taken from
+    compute_stable_timestep, which leaves data in the shared scratch buffer) against the numpy reference step
+    field + dt * (-u.grad_ENO3 + nu Lap_h)(field) with dx = x_range / nx"""
     import sopht.simulator as sps
 
-    for dim, ft in ((2, "scalar"), (3, "scalar"), (3, "vector")):
-        r = impl.rng(seed, "c01passive", dim, ft)
-        shape = tuple(int(v) for v in r.integers(6, 10, size=dim))
-        sim = sps.PassiveTransportFlowSimulator(kinematic_viscosity=float(r.uniform(1e-3, 5e-2)), grid_dim=dim, grid_size=shape,
-                                                x_range=1.0, real_t=np.float64, field_type=ft, time=0.25)
-        sim.primary_field[...] = r.normal(size=sim.primary_field.shape)
-        sim.velocity_field[...] = r.normal(size=sim.velocity_field.shape)
-        sim.buffer_scalar_field[...] = r.normal(size=shape)
-        for stepno in range(2):
-            dt = float(r.uniform(1e-3, 5e-3))
-            exp = R.passive_step_reference(sim.primary_field, sim.velocity_field, dt, float(sim.dx), sim.kinematic_viscosity)
-            t0 = sim.time
-            sim.time_step(dt=dt)
-            cases += 1
-            if sim.time != t0 + dt or impl.relerr(sim.primary_field, exp) > 1e-10:
-                return {"ok": False, "cases": cases, "samples": samples, "failing_input": {
-                    "oracle": "c01_passive_reference_step", "dim": dim, "field_type": ft, "grid": list(shape), "step": stepno + 1,
-                    "rel_err": impl.relerr(sim.primary_field, exp)}}
-    return {"ok": True, "cases": cases, "failing_input": None, "samples": samples}
+    cases = 0
+    for rep in range(reps):
+        for dim, ft in ((2, "scalar"), (3, "scalar"), (3, "vector")):
+            r = impl.rng(seed, tag, dim, ft, rep)
+            shape = tuple(int(v) for v in 6 + r.permutation(dim + 2)[:dim])
+            xr = float(r.uniform(0.5, 2.0))
+            sim = sps.PassiveTransportFlowSimulator(kinematic_viscosity=float(r.uniform(1e-3, 5e-2)), grid_dim=dim, grid_size=shape,
+                                                    x_range=xr, real_t=np.float64, field_type=ft, time=0.25)
+            sim.primary_field[...] = r.normal(size=sim.primary_field.shape)
+            sim.velocity_field[...] = r.normal(size=sim.velocity_field.shape)
+            sim.buffer_scalar_field[...] = r.normal(size=shape)
+            dx = xr / shape[-1]
+            for stepno in range(3):
+                if stepno == 1:
+                    with np.errstate(all="ignore"):
+                        dt = float(sim.compute_stable_timestep(dt_prefac=0.5))
+                else:
+                    dt = float(r.uniform(1e-3, 5e-3))
+                exp = R.passive_step_reference(sim.primary_field, sim.velocity_field, dt, dx, sim.kinematic_viscosity)
+                t0 = sim.time
+                sim.time_step(dt=dt)
+                cases += 1
+                if sim.time != t0 + dt or impl.relerr(sim.primary_field, exp) > 1e-10:
+                    return {"oracle": oracle_name, "dim": dim, "field_type": ft, "grid": list(shape), "x_range": xr, "step": stepno + 1, "dt": dt,
+                            "dt_from_compute_stable_timestep": stepno == 1, "rel_err": impl.relerr(sim.primary_field, exp),
+                            "what": "simulator step differs from field + dt*flux(field) with dx = x_range/nx"}, cases
+    return None, cases
 
 
 def replay(fi):
